@@ -5,6 +5,7 @@ pub mod c06;
 pub mod c07;
 pub mod c08;
 pub mod c09;
+pub mod c10;
 pub mod c11;
 pub mod c20;
 pub mod smoke;
@@ -18,6 +19,7 @@ pub fn lookup(id: &str) -> Option<(&'static str, Runner)> {
         "C07" => ("C07", c07::run as Runner),
         "C08" => ("C08", c08::run as Runner),
         "C09" => ("C09", c09::run as Runner),
+        "C10" => ("C10", c10::run as Runner),
         "C11" => ("C11", c11::run as Runner),
         "SMOKE" => ("SMOKE", smoke::run as Runner),
         "C20" => ("C20", c20::run as Runner),
